@@ -4,7 +4,9 @@ From PM Require Import Model.Data Model.Mark Model.Tree Spec.Tokens Spec.DiffSpe
 Import ListNotations.
 
 Inductive case :=
-| CDiff (s : schema) (a b : list node) (obs_start : res (option nat)) (obs_end : res (option (nat * nat))).
+| CDiff (s : schema) (a b : list node) (obs_start : res (option nat)) (obs_end : res (option (nat * nat)))
+(* Fragment.eq / Node.eq as observed: the equality every 'None iff equal' statement is about *)
+| CEq (s : schema) (a b : list node) (obs : bool).
 
 Definition never (_ _ : node) : bool := false.
 Definition pair_eqb (x y : nat * nat) : bool := Nat.eqb (fst x) (fst y) && Nat.eqb (snd x) (snd y).
@@ -16,6 +18,7 @@ Definition agree (c : case) : bool :=
     res_eqb (opt_eqb Nat.eqb) (Ok (find_diff_start s node_eqb a b 0)) os &&
     res_eqb (opt_eqb pair_eqb) (Ok (find_diff_end s never a b (frag_size s a) (frag_size s b))) oe &&
     res_eqb (opt_eqb pair_eqb) (Ok (find_diff_end s node_eqb a b (frag_size s a) (frag_size s b))) oe
+  | CEq s a b obs => Bool.eqb (frag_eqb a b) obs
   end.
 
 Definition holds (c : case) : bool :=
@@ -35,4 +38,5 @@ Definition holds (c : case) : bool :=
        negb eq && Nat.eqb (pa + k) (frag_size s a) && Nat.eqb (pb + k) (frag_size s b)
      | Err _ => false
      end)
+  | CEq s a b obs => true
   end.
